@@ -396,7 +396,7 @@ def run_case(case: dict) -> CaseResult:
     for sid, (a, b, tid) in sub_on.items():
         if ctick is not None and a > ctick:
             continue
-        want_keys = [m[2] for m in sorted(case.get("msgs", []), key=lambda m: m[0]) if m[1] == tid and a < m[0] and (b is None or m[0] <= b) and (ctick is None or m[0] <= ctick)]
+        want_keys = [m[2] for m in sorted(case.get("msgs", []), key=lambda m: m[0]) if m[1] == tid and a < m[0] and (b is None or m[0] <= b) and (ctick is None or m[0] < ctick or (m[0] == ctick and closed[1] != "writefail"))]  # (a failing request write precedes the arrivals of its instant)
         got_keys = [k for _t, k in subs.get(sid, {}).get("got", [])]
         if got_keys != want_keys:
             res.violations.append(Violation(ID, "c11:plain-subscription-disturbed", f"subscription {sid} on type {tid} active ticks ({a}, {b}]: got keys {got_keys}, expected {want_keys}"))
